@@ -172,6 +172,12 @@ func runC16(r *run) {
 		}
 		zone := zones[g.intn(len(zones))]
 		t := time.Date(year, time.Month(1+g.intn(12)), 1+g.intn(28), g.intn(24), g.intn(60), g.intn(60), nano, zone)
+		if g.chance(1, 12) {
+			t = time.Time{} // the zero instant is an instant like any other: it is the record's own time
+			if g.chance(1, 2) {
+				t = t.In(zone)
+			}
+		}
 		if viaHandler != nil {
 			_ = viaHandler.Handle(ctx, logslog.NewRecord(t, logslog.LevelInfo, "m", 0))
 		} else {
